@@ -36,6 +36,7 @@ type ovFile struct {
 	file *ast.File
 	// import alias -> repo package import path
 	repoImports map[string]string
+	atomicAlias string // local name of sync/atomic in this file ("" if not imported)
 }
 
 type ovPkg struct {
@@ -43,6 +44,7 @@ type ovPkg struct {
 	name       string
 	vars       map[string]bool // package-level variable names
 	mutable    map[string]bool // root variables assigned outside init
+	atomicVar  map[string]bool // package-level variables whose declared type mentions sync/atomic
 	files      []*ovFile
 }
 
@@ -62,6 +64,24 @@ type access struct {
 	id    string
 	root  string // pkgImportPath + "." + var
 	write bool
+	// atomic: 0 = plain access; 1 = atomic load, 2 = atomic store, 3 = atomic read-modify-write.  Atomic
+	// operations are scheduling points that create happens-before edges, not data accesses.
+	atomic int
+}
+
+// atomicKind classifies sync/atomic function and method names.
+func atomicKind(name string, methodForm bool) int {
+	switch {
+	case strings.HasPrefix(name, "Load"):
+		return 1
+	case strings.HasPrefix(name, "Store"):
+		return 2
+	case strings.HasPrefix(name, "Swap"), strings.HasPrefix(name, "CompareAndSwap"):
+		return 3
+	case !methodForm && (strings.HasPrefix(name, "Add") || strings.HasPrefix(name, "And") || strings.HasPrefix(name, "Or")):
+		return 3
+	}
+	return 0
 }
 
 func generateOverlay(dir string) (*OverlayInfo, error) {
@@ -93,18 +113,46 @@ func generateOverlay(dir string) (*OverlayInfo, error) {
 		}
 		pk := pkgs[ip]
 		if pk == nil {
-			pk = &ovPkg{importPath: ip, name: f.Name.Name, vars: map[string]bool{}, mutable: map[string]bool{}}
+			pk = &ovPkg{importPath: ip, name: f.Name.Name, vars: map[string]bool{}, mutable: map[string]bool{}, atomicVar: map[string]bool{}}
 			pkgs[ip] = pk
 		}
 		of := &ovFile{path: p, pkg: pk, file: f, repoImports: map[string]string{}}
+		for _, im := range f.Imports {
+			if im.Path.Value == `"sync/atomic"` {
+				of.atomicAlias = "atomic"
+				if im.Name != nil {
+					of.atomicAlias = im.Name.Name
+				}
+			}
+		}
 		pk.files = append(pk.files, of)
 		files = append(files, of)
 		for _, d := range f.Decls {
 			if gd, ok := d.(*ast.GenDecl); ok && gd.Tok == token.VAR {
 				for _, s := range gd.Specs {
-					for _, n := range s.(*ast.ValueSpec).Names {
+					vs := s.(*ast.ValueSpec)
+					mentionsAtomic := false
+					if of.atomicAlias != "" {
+						for _, e := range append([]ast.Expr{vs.Type}, vs.Values...) {
+							if e == nil {
+								continue
+							}
+							ast.Inspect(e, func(n ast.Node) bool {
+								if se, ok := n.(*ast.SelectorExpr); ok {
+									if id, ok := se.X.(*ast.Ident); ok && id.Name == of.atomicAlias {
+										mentionsAtomic = true
+									}
+								}
+								return true
+							})
+						}
+					}
+					for _, n := range vs.Names {
 						if n.Name != "_" {
 							pk.vars[n.Name] = true
+							if mentionsAtomic {
+								pk.atomicVar[n.Name] = true
+							}
 						}
 					}
 				}
@@ -179,9 +227,21 @@ func generateOverlay(dir string) (*OverlayInfo, error) {
 				continue
 			}
 			forEachAccess(of, pkgs, fd, nil, func(acc []access) []ast.Stmt {
-				var out []ast.Stmt
+				var out, atomics []ast.Stmt
 				seen := map[string]bool{}
 				for _, a := range acc {
+					if a.atomic != 0 {
+						key := a.id + fmt.Sprint("atomic", a.atomic)
+						if !seen[key] {
+							seen[key] = true
+							hooks++
+							atomics = append(atomics, &ast.ExprStmt{X: &ast.CallExpr{
+								Fun:  &ast.SelectorExpr{X: ast.NewIdent("vrtverif"), Sel: ast.NewIdent("Atomic")},
+								Args: []ast.Expr{&ast.BasicLit{Kind: token.STRING, Value: strconv.Quote(a.id)}, &ast.BasicLit{Kind: token.INT, Value: fmt.Sprint(a.atomic)}},
+							}})
+						}
+						continue
+					}
 					i := strings.LastIndex(a.root, ".")
 					if !pkgs[a.root[:i]].mutable[a.root[i+1:]] {
 						continue
@@ -197,7 +257,8 @@ func generateOverlay(dir string) (*OverlayInfo, error) {
 						Args: []ast.Expr{&ast.BasicLit{Kind: token.STRING, Value: strconv.Quote(a.id)}, ast.NewIdent(fmt.Sprint(a.write))},
 					}})
 				}
-				return out
+				// atomic hooks last: their happens-before bookkeeping must sit directly before the statement
+				return append(out, atomics...)
 			})
 		}
 		if hooks > 0 {
@@ -364,6 +425,35 @@ func forEachAccess(of *ovFile, pkgs map[string]*ovPkg, fd *ast.FuncDecl, visit f
 			return // its body is instrumented as its own block
 		case *ast.CallExpr:
 			if sel, ok := v.Fun.(*ast.SelectorExpr); ok {
+				// sync/atomic function on the address of (a field of) a package-level variable
+				if id, isId := sel.X.(*ast.Ident); isId && of.atomicAlias != "" && id.Name == of.atomicAlias && !locals[id.Name] && len(v.Args) > 0 {
+					if k := atomicKind(sel.Sel.Name, false); k != 0 {
+						if ue, isAddr := v.Args[0].(*ast.UnaryExpr); isAddr && ue.Op == token.AND {
+							if root, path, isVar := pathOf(ue.X); isVar {
+								for _, a := range v.Args[1:] {
+									collect(a, false, acc)
+								}
+								*acc = append(*acc, access{id: path, root: root, atomic: k})
+								return
+							}
+						}
+					}
+				}
+				// method of an atomic type held in (a field of) a package-level variable
+				if root, path, isVar := pathOf(sel.X); isVar {
+					k := atomicKind(sel.Sel.Name, true)
+					i := strings.LastIndex(root, ".")
+					if k == 0 && pkgs[root[:i]].atomicVar[root[i+1:]] {
+						k = atomicKind(sel.Sel.Name, false)
+					}
+					if k != 0 {
+						for _, a := range v.Args {
+							collect(a, false, acc)
+						}
+						*acc = append(*acc, access{id: path, root: root, atomic: k})
+						return
+					}
+				}
 				if _, _, isVar := pathOf(sel.X); isVar && syncMethods[sel.Sel.Name] {
 					// a synchronisation operation on (a field of) a package-level variable is not a data access
 					for _, a := range v.Args {
